@@ -8,7 +8,7 @@ from ..core import Report
 from ..fa import fa_of
 from ..model import Program
 from ..rules import names
-from ..sym import Poly, Term, leaves, negate, show, term_to_poly
+from ..sym import poly_term, Poly, Term, leaves, negate, show, term_to_poly
 from .sampler_common import FILE, Roles, eq_atoms, split_eq, yields_at
 
 
@@ -267,6 +267,25 @@ def run(prog: Program, rep: Report, tier: str):
                     clause="C04.3")
             continue
         same = cond == upd_cond
+        if not same and SU:
+            # the in-update counter is reset to 0 in the update block and grows by one per index, so it stays within 1..B when
+            # the update fires at 'counter == B' (or 'counter % B == 0'): the two spellings are the same test for it
+            def _mod_as_eq(t_):
+                if isinstance(t_, tuple) and t_ and t_[0] == "eq" and len(t_) == 2:
+                    pl_ = term_to_poly(t_[1])
+                    if len(pl_.terms) == 1:
+                        (k_, v_), = pl_.terms.items()
+                        if len(k_) == 1 and k_[0][1] == 1 and k_[0][0][:2] == ("binop", "%") and k_[0][0][2][0] == "var" \
+                                and k_[0][0][2][1] == SU:
+                            return ("eq", poly_term(term_to_poly(k_[0][0][2]) - term_to_poly(k_[0][0][3])))
+                    return t_
+                if isinstance(t_, tuple) and t_ and t_[0] in ("or", "and"):
+                    parts_ = tuple(sorted((_mod_as_eq(x_) for x_ in t_[1]), key=repr))
+                    return (t_[0], parts_)
+                if isinstance(t_, tuple) and t_ and t_[0] == "not":
+                    return ("not", _mod_as_eq(t_[1]))
+                return t_
+            same = _mod_as_eq(cond) == _mod_as_eq(upd_cond)
         rep.decide(same, "G9.flag-vs-update", fi, f"flag:{' '.join(ast.unparse(yv).split())}",
                    "flag condition equals the update condition",
                    f"flag condition {show(cond)} differs from the update condition {show(upd_cond)}",
@@ -451,20 +470,17 @@ def _budget_function(rep: Report, R, fa, cfg, fi, upd_entry: int, stops: Set[int
                     return "cmp", unit, False, (f"self.{unit} is compared with {', '.join(show(a) for a in cvars) or '?'} instead of "
                                                 f"the {unit[:-1]} counter '{want}'")
                 cb, cc = p.coeff_of(battr[0]).const_value(), p.coeff_of(cvars[0]).const_value()
+                # the atom as a fact about the ordering of (counter, budget): true exactly in the listed orderings
                 if t[0] == "eq":
-                    if unit == "samples":
-                        return "cmp", unit, False, ("samples budget compared with == : a budget that is not hit exactly never stops "
-                                                    "the stream")
-                    return "cmp", unit, cb is not None and cc is not None and cb == -cc, "comparison of unrecognised scale"
-                # 'lt' atoms: p < 0.  counter >= budget is the negation of (counter - budget < 0)
+                    return "cmp", unit, cb is not None and cc is not None and cb == -cc, "comparison of unrecognised scale", ("=",)
                 if cb == -1 and cc == 1:
-                    return "cmp>=neg", unit, True, ""      # atom is 'counter < budget': the stop condition is its negation
+                    return "cmp", unit, True, "", ("<",)          # counter - budget < 0
                 if cb == 1 and cc == -1:
-                    return "cmp>", unit, False, "strict comparison: stops one update late (counter > budget)"
+                    return "cmp", unit, True, "", (">",)          # budget - counter < 0
                 return "cmp", unit, False, "comparison of unrecognised scale"
         return "other", None, True, ""
     roles = {t: classify(t) for t in atoms}
-    rows_cache = {}
+    rows_cache = {}  # (comparison atoms carry a fifth field: the orderings of (counter, budget) in which they hold)
     import itertools
     if len(atoms) > 14:
         rep.unk("G8.budget", fi, "stop-condition", f"{len(atoms)} atomic tests: not decided", line=R.line(Bn), clause="C04.4")
@@ -472,7 +488,8 @@ def _budget_function(rep: Report, R, fa, cfg, fi, upd_entry: int, stops: Set[int
     for unit, want in unit_counter.items():
         # exactly this budget is configured
         fixed = {}
-        for t, (role, u, ok, detail) in roles.items():
+        for t, rl_ in roles.items():
+            role, u = rl_[0], rl_[1]
             if role == "none":
                 fixed[t] = (u != unit)
         free = [t for t in atoms if t not in fixed]
@@ -501,6 +518,29 @@ def _budget_function(rep: Report, R, fa, cfg, fi, upd_entry: int, stops: Set[int
             t = bad_foreign[0]
             rep.bad("G8.budget", fi, f"unit:{unit}", f"with only the {unit} budget set the stop still depends on {show(t)[:70]} "
                     f"(the {roles[t][1]} budget, which is None then)", line=R.line(Bn), clause="C04.4")
+            continue
+        if not foreign and mine and all(len(roles[t]) == 5 for t in mine):
+            # the comparisons only see how the counter stands to the budget: the stop condition as a function of that ordering
+            stop = {}
+            for o in ("<", "=", ">"):
+                val = dict(fixed)
+                for t in free:
+                    val[t] = (o in roles[t][4]) if t in mine else False
+                stop[o] = formula_eval(D, val)
+            need_gt = unit == "samples"
+            ok = (not stop["<"]) and stop["="] and (stop[">"] or not need_gt)
+            if stop["<"]:
+                why = f"with only the {unit} budget set the stream stops while the {unit[:-1]} counter is still below the budget"
+            elif not stop["="] and stop[">"]:
+                why = "strict comparison: stops one update late (counter > budget)"
+            elif not stop["="]:
+                why = (f"with only the {unit} budget set the stream does not stop when the {unit[:-1]} counter reaches it "
+                       f"(the comparison is negated or combined wrongly)")
+            else:
+                why = "samples budget compared with == : a budget that is not hit exactly never stops the stream"
+            rep.decide(ok, "G8.budget", fi, f"unit:{unit}",
+                       f"self.{unit} is compared with the {unit[:-1]} counter '{want}' (stop at {'>=' if stop['>'] else '=='})",
+                       why, line=R.line(Bn), clause="C04.4")
             continue
         if foreign or len(mine) != 1:
             conv = _budget_conversion(R, fa, cfg, unit, foreign, unit_counter)
@@ -628,6 +668,14 @@ def batch_sampler(prog: Program, rep: Report):
     fresh |= {n for n in cfg.nodes for v, t_, val in cfg.defs_at(n)
               if v == lst and isinstance(val, ast.Call) and isinstance(val.func, ast.Name) and val.func.id == "list"
               and not val.args}
+    # an empty slice of a list is a new empty list as well: x = x[:0] / x[0:0] / x[len(x):]
+    def _empty_slice(val):
+        if not (isinstance(val, ast.Subscript) and isinstance(val.slice, ast.Slice) and isinstance(val.value, ast.Name)):
+            return False
+        sl = val.slice
+        zero = lambda e: isinstance(e, ast.Constant) and e.value == 0
+        return sl.step is None and zero(sl.upper) and (sl.lower is None or zero(sl.lower))
+    fresh |= {n for n in cfg.nodes for v, t_, val in cfg.defs_at(n) if v == lst and val is not None and _empty_slice(val)}
     fresh_in = {n for n in fresh if cfg.reachable(y, n, avoid={N})}
     mut = [n for n, c in fa.calls() if isinstance(c.func, ast.Attribute) and isinstance(c.func.value, ast.Name)
            and c.func.value.id == lst and c.func.attr in ("clear", "pop", "remove", "__delitem__", "sort", "reverse")]
